@@ -318,14 +318,17 @@ def ndjson_read(path):
 
 
 def sany_all():
-    """Parse every spec module with SANY; tool error on failure."""
-    bad = []
-    for f in sorted(os.listdir(SPEC)):
-        if not f.endswith(".tla"):
-            continue
+    """Parse every spec module with SANY (8 at a time); returns the list of failures."""
+    import concurrent.futures
+
+    def one(f):
         p = subprocess.run(["java", "-cp", TLA_CP, "tla2sany.SANY", f], cwd=SPEC,
                            stdout=subprocess.PIPE, stderr=subprocess.STDOUT, text=True)
         if p.returncode != 0 or "Semantic errors" in p.stdout or "Fatal errors" in p.stdout \
                 or "Could not parse" in p.stdout or "*** Errors" in p.stdout:
-            bad.append((f, p.stdout[-1500:]))
-    return bad
+            return (f, p.stdout[-1500:])
+        return None
+
+    files = [f for f in sorted(os.listdir(SPEC)) if f.endswith(".tla")]
+    with concurrent.futures.ThreadPoolExecutor(max_workers=8) as ex:
+        return [r for r in ex.map(one, files) if r]
